@@ -596,6 +596,17 @@ func (w *World) opRestart() {
 						note = " [" + why + "]"
 					} else if _, present := mr.mans[dg]; !present && mr.isChildOfPresent(dg) {
 						note = " [deleted manifest still listed as child by a present index]"
+					} else if kind == "refs" {
+						if mr.respLost[dg] {
+							note = " [referrers response collected by policy while artifacts remain]"
+						}
+						for ad, a := range mr.mans {
+							if a.view.subject == dg {
+								if why := mr.causeOf(ad); why != "" {
+									note = " [" + why + "]"
+								}
+							}
+						}
 					}
 				}
 				if note != "" {
